@@ -1137,4 +1137,295 @@ theorem loopRunTask_W {w : World} (hi : WInv w) (hcur : w.current = none) : WInv
       · intro g hg; rw [hcur'] at hg; injection hg with hg; subst hg
         unfold WQuiet; rw [hr, ht, ent_of_chans hc]; exact hQ
 
+/-! ### folds of wake-ups (close, timer phase) -/
+
+/-- an action that is the identity or one call of janet_schedule_general -/
+def IsSched {α : Type} (act : World → α → World) : Prop :=
+  ∀ u a, act u a = u ∨ ∃ g val sig, act u a = scheduleGeneral u g val sig false
+
+theorem closeWake_isSched (cfg : Cfg) (c : Nat) (b : Bool) : IsSched (closeWake cfg c b) := by
+  intro u p
+  unfold closeWake
+  split
+  · right; exact ⟨_, _, _, rfl⟩
+  · left; rfl
+
+theorem fireTimer_isSched : IsSched fireTimer := by
+  intro u t
+  unfold fireTimer
+  split
+  · split
+    · right; exact ⟨_, _, _, rfl⟩
+    · left; rfl
+  · split
+    · split
+      · right; exact ⟨_, _, _, rfl⟩
+      · right; exact ⟨_, _, _, rfl⟩
+    · left; rfl
+
+theorem fold_M {α : Type} (act : World → α → World) (hact : IsSched act) (tm : List Timer) (en : Ent) :
+    ∀ (l : List α) (u : World), M u.fibers u.runq tm en u.current →
+      M (l.foldl act u).fibers (l.foldl act u).runq tm en (l.foldl act u).current := by
+  intro l
+  induction l with
+  | nil => intro u h; exact h
+  | cons a rest ih =>
+    intro u h
+    simp only [List.foldl_cons]
+    apply ih
+    rcases hact u a with e | ⟨g, val, sig, e⟩
+    · rw [e]; exact h
+    · rw [e]; exact M_schedule g val sig h
+
+theorem fold_misc {α : Type} (act : World → α → World) (hact : IsSched act) :
+    ∀ (l : List α) (u : World), (l.foldl act u).chans = u.chans ∧ (l.foldl act u).timers = u.timers ∧
+      (l.foldl act u).current = u.current ∧
+      ∀ h, (u.fibers h).sched ≤ ((l.foldl act u).fibers h).sched ∧
+        (((l.foldl act u).fibers h).sched = (u.fibers h).sched → (l.foldl act u).fibers h = u.fibers h) := by
+  intro l
+  induction l with
+  | nil => intro u; exact ⟨rfl, rfl, rfl, fun h => ⟨Nat.le_refl _, fun _ => rfl⟩⟩
+  | cons a rest ih =>
+    intro u
+    simp only [List.foldl_cons]
+    obtain ⟨i1, i2, i3, i4⟩ := ih (act u a)
+    have hstep : (act u a).chans = u.chans ∧ (act u a).timers = u.timers ∧ (act u a).current = u.current ∧
+        ∀ h, (u.fibers h).sched ≤ ((act u a).fibers h).sched ∧
+          (((act u a).fibers h).sched = (u.fibers h).sched → (act u a).fibers h = u.fibers h) := by
+      rcases hact u a with e | ⟨g, val, sig, e⟩
+      · rw [e]; exact ⟨rfl, rfl, rfl, fun h => ⟨Nat.le_refl _, fun _ => rfl⟩⟩
+      · rw [e]
+        obtain ⟨p1, p2, p3, pc⟩ := scheduleGeneral_props u g val sig
+        refine ⟨p2, p1, p3, ?_⟩
+        intro h
+        rcases pc with ⟨_, hf, _⟩ | ⟨_, hs, _, hoth, _⟩
+        · rw [hf]; exact ⟨Nat.le_refl _, fun _ => rfl⟩
+        · by_cases e' : h = g
+          · subst e'; rw [hs]; exact ⟨Nat.le_succ _, fun c => absurd c (Nat.succ_ne_self _)⟩
+          · rw [hoth h e']; exact ⟨Nat.le_refl _, fun _ => rfl⟩
+    obtain ⟨s1, s2, s3, s4⟩ := hstep
+    refine ⟨i1.trans s1, i2.trans s2, i3.trans s3, ?_⟩
+    intro h
+    obtain ⟨a1, a2⟩ := i4 h
+    obtain ⟨b1, b2⟩ := s4 h
+    refine ⟨Nat.le_trans b1 a1, ?_⟩
+    intro e
+    have e1 : ((act u a).fibers h).sched = (u.fibers h).sched := by omega
+    have e2 : ((List.foldl act (act u a) rest).fibers h).sched = ((act u a).fibers h).sched := by omega
+    rw [a2 e2, b2 e1]
+
+/-- in the timer phase every due sleep timer that is still current gets its fiber scheduled -/
+theorem fireTimer_fold_wakes : ∀ (l : List Timer) (u : World) (t : Timer), t ∈ l → t.curr = none →
+    t.sched = (u.fibers t.fiber).sched → (u.fibers t.fiber).canceled = false →
+    (u.fibers t.fiber).sched < ((l.foldl fireTimer u).fibers t.fiber).sched := by
+  intro l
+  induction l with
+  | nil => intro u t ht; simp at ht
+  | cons q rest ih =>
+    intro u t ht hc hl hcan
+    simp only [List.foldl_cons]
+    obtain ⟨_, _, _, hmono⟩ := fold_misc fireTimer fireTimer_isSched rest (fireTimer u q)
+    obtain ⟨_, _, _, hstep⟩ := fold_misc fireTimer fireTimer_isSched [q] u
+    simp only [List.foldl_cons, List.foldl_nil] at hstep
+    by_cases hlt : (u.fibers t.fiber).sched < ((fireTimer u q).fibers t.fiber).sched
+    · exact Nat.lt_of_lt_of_le hlt (hmono t.fiber).1
+    · have heq : ((fireTimer u q).fibers t.fiber).sched = (u.fibers t.fiber).sched := by
+        have := (hstep t.fiber).1; omega
+      have hfe := (hstep t.fiber).2 heq
+      rcases List.mem_cons.mp ht with e | e
+      · subst e
+        exfalso; apply hlt
+        unfold fireTimer
+        simp only [hc, hl, ↓reduceIte]
+        obtain ⟨_, _, _, pc⟩ := scheduleGeneral_props u t.fiber (if t.isError then Val.errTimeout else Val.nil)
+          (if t.isError then Sig.error else Sig.ok)
+        cases hie : t.isError
+        · simp only [hie, Bool.false_eq_true, ↓reduceIte] at pc ⊢
+          rcases pc with ⟨hcc, _⟩ | ⟨_, hs, _⟩
+          · rw [hcan] at hcc; cases hcc
+          · unfold schedule; rw [hs]; exact Nat.lt_succ_self _
+        · simp only [hie, ↓reduceIte] at pc ⊢
+          rcases pc with ⟨hcc, _⟩ | ⟨_, hs, _⟩
+          · rw [hcan] at hcc; cases hcc
+          · unfold cancelFiber; rw [hs]; exact Nat.lt_succ_self _
+      · have := ih (fireTimer u q) t e hc (by rw [heq]; exact hl) (by rw [hfe]; exact hcan)
+        omega
+
+theorem mem_takeWhile_or_dropWhile {α : Type} (p : α → Bool) (l : List α) (a : α) (h : a ∈ l) :
+    a ∈ l.dropWhile p ∨ (a ∈ l.takeWhile p ∧ p a = true) := by
+  induction l with
+  | nil => simp at h
+  | cons x rest ih =>
+    by_cases hx : p x = true
+    · rcases List.mem_cons.mp h with e | e
+      · right; subst e; simp [List.takeWhile_cons, hx]
+      · rcases ih e with r | ⟨r1, r2⟩
+        · left; simp [List.dropWhile_cons, hx]; exact r
+        · right; simp [List.takeWhile_cons, hx]; exact ⟨Or.inr r1, r2⟩
+    · left; simp [List.dropWhile_cons, hx]; exact List.mem_cons.mp h
+
+theorem mem_of_mem_dropWhile' {α : Type} (p : α → Bool) (l : List α) (a : α) (h : a ∈ l.dropWhile p) : a ∈ l := by
+  induction l with
+  | nil => simp at h
+  | cons x rest ih =>
+    by_cases hx : p x = true
+    · simp [List.dropWhile_cons, hx] at h; exact List.mem_cons_of_mem _ (ih h)
+    · simp [List.dropWhile_cons, hx] at h; exact List.mem_cons.mpr h
+
+theorem loopTimers_W {w : World} (hi : WInv w) (hcur : w.current = none) : WInv (loopTimers w) := by
+  obtain ⟨hm, _⟩ := hi
+  unfold WM at hm
+  unfold loopTimers
+  let now := w.clock + w.clockStep
+  let p : Timer → Bool := fun t => decide (t.when ≤ now)
+  let u0 : World := { w with clock := now, timers := w.timers.dropWhile p }
+  let wf := (w.timers.takeWhile p).foldl fireTimer u0
+  show WInv wf
+  have hM : M wf.fibers wf.runq w.timers w.ent wf.current :=
+    fold_M fireTimer fireTimer_isSched w.timers w.ent _ u0 hm
+  obtain ⟨hch, htm, hc, hmono⟩ := fold_misc fireTimer fireTimer_isSched (w.timers.takeWhile p) u0
+  have hent : wf.ent = w.ent := ent_of_chans hch
+  refine ⟨?_, fun g hg => by rw [hc] at hg; rw [show u0.current = w.current from rfl, hcur] at hg; cases hg⟩
+  unfold WM
+  rw [hent, htm]
+  apply M_timer_shrink hM (fun u hu => mem_of_mem_dropWhile' p _ u hu)
+  intro t ht hnt
+  rcases mem_takeWhile_or_dropWhile p w.timers t ht with h | ⟨h, _⟩
+  · exact absurd h hnt
+  · by_cases hcn : t.curr = none
+    · right
+      have hb := hm.a3 t ht
+      have hle := (hmono t.fiber).1
+      by_cases hl : t.sched = (w.fibers t.fiber).sched
+      · have hcan : (w.fibers t.fiber).canceled = false :=
+          not_canceled_of_liveEntry hm t.fiber (Or.inr ⟨t, ht, hcn, rfl, hl⟩)
+        have this' : (w.fibers t.fiber).sched < (wf.fibers t.fiber).sched :=
+          fireTimer_fold_wakes (w.timers.takeWhile p) u0 t h hcn hl hcan
+        omega
+      · have hle' : (w.fibers t.fiber).sched ≤ (wf.fibers t.fiber).sched := hle
+        omega
+    · left; exact hcn
+
+theorem mem_dropWhile_stale {α : Type} (p : α → Bool) (l : List α) (a : α) (h : a ∈ l) (hn : a ∉ l.dropWhile p) :
+    p a = true := by
+  rcases mem_takeWhile_or_dropWhile p l a h with r | ⟨_, r⟩
+  · exact absurd r hn
+  · exact r
+
+theorem loopPollDrop_W {w : World} (hi : WInv w) (hcur : w.current = none) : WInv (loopPollDrop w) := by
+  obtain ⟨hm, _⟩ := hi
+  unfold WM at hm
+  refine ⟨?_, fun g hg => by simp [loopPollDrop, hcur] at hg⟩
+  show M w.fibers w.runq (w.timers.dropWhile (timerStale w)) w.ent w.current
+  apply M_timer_shrink hm (fun u hu => mem_of_mem_dropWhile' _ _ u hu)
+  intro t ht hnt
+  have := mem_dropWhile_stale (timerStale w) w.timers t ht hnt
+  unfold timerStale at this
+  cases hcn : t.curr with
+  | some s => left; intro c; cases c
+  | none => right; rw [hcn] at this; intro e; simp at this; exact this e.symm
+
+/-! ### close -/
+
+/-- the wake loop of close never touches a fiber that has no current registration among the entries -/
+theorem closeWake_fold_quiet {cfg : Cfg} (hcc : cfg.closeChecksSched = true) (c : Nat) (b : Bool) (f : Nat) (s0 : Nat) :
+    ∀ (ps : List Pending) (u : World), (∀ p ∈ ps, p.fiber = f → p.sched ≠ s0) → (u.fibers f).sched = s0 →
+      (ps.foldl (closeWake cfg c b) u).fibers f = u.fibers f ∧
+      LT (ps.foldl (closeWake cfg c b) u).fibers (ps.foldl (closeWake cfg c b) u).runq f = LT u.fibers u.runq f := by
+  intro ps
+  induction ps with
+  | nil => intro u _ _; exact ⟨rfl, rfl⟩
+  | cons p rest ih =>
+    intro u hno hs
+    simp only [List.foldl_cons]
+    have hstep : (closeWake cfg c b u p).fibers f = u.fibers f ∧
+        LT (closeWake cfg c b u p).fibers (closeWake cfg c b u p).runq f = LT u.fibers u.runq f := by
+      unfold closeWake
+      split
+      · rename_i hcond
+        have hlive : p.live u.fibers = true := by
+          simp only [hcc, Bool.not_true, Bool.false_or, Bool.and_eq_true] at hcond; exact hcond.1
+        have hne : p.fiber ≠ f := by
+          intro e
+          have := (live_iff u.fibers p).mp hlive
+          rw [e, hs] at this
+          exact hno p (by simp) e this
+        obtain ⟨a, b'⟩ := schedule_other u p.fiber _ .ok f hne
+        exact ⟨b', a⟩
+      · exact ⟨rfl, rfl⟩
+    obtain ⟨i1, i2⟩ := ih (closeWake cfg c b u p) (fun q hq => hno q (List.mem_cons_of_mem _ hq)) (by rw [hstep.1]; exact hs)
+    exact ⟨i1.trans hstep.1, i2.trans hstep.2⟩
+
+theorem chanClose_W {cfg : Cfg} (hcc : cfg.closeChecksSched = true) {w : World} {f c : Nat}
+    (hm : WM w) (hcur : w.current = some f) (hq : WQuiet w f) :
+    WM (chanClose cfg w c) ∧ (chanClose cfg w c).current = some f ∧ WQuiet (chanClose cfg w c) f := by
+  by_cases hcl : (w.chans c).closed = true
+  · have : chanClose cfg w c = w := by unfold chanClose; simp [hcl]
+    rw [this]; exact ⟨hm, hcur, hq⟩
+  · have hopen : (w.chans c).closed = false := by simpa using hcl
+    let w0 := setChan w c { (w.chans c) with closed := true, readPending := [], writePending := [] }
+    let w1 := (w.chans c).writePending.foldl (closeWake cfg c true) w0
+    let wf := (w.chans c).readPending.foldl (closeWake cfg c false) w1
+    have hwf : chanClose cfg w c = wf := by unfold chanClose; simp [hcl]; rfl
+    unfold WM at hm
+    have hM1 : M w1.fibers w1.runq w.timers w.ent w1.current :=
+      fold_M _ (closeWake_isSched cfg c true) w.timers w.ent _ w0 hm
+    have hMf : M wf.fibers wf.runq w.timers w.ent wf.current :=
+      fold_M _ (closeWake_isSched cfg c false) w.timers w.ent _ w1 hM1
+    obtain ⟨c1, t1, k1, m1⟩ := fold_misc _ (closeWake_isSched cfg c true) (w.chans c).writePending w0
+    obtain ⟨c2, t2, k2, m2⟩ := fold_misc _ (closeWake_isSched cfg c false) (w.chans c).readPending w1
+    have hchf : wf.chans = w0.chans := c2.trans c1
+    have hentc : wf.ent c = [] := by unfold World.ent; rw [hchf]; simp [w0, setChan]
+    have hento : ∀ c', c' ≠ c → wf.ent c' = w.ent c' := by
+      intro c' hc'; unfold World.ent; rw [hchf]; simp [w0, setChan, hc']
+    have hmono : ∀ h, (w.fibers h).sched ≤ (wf.fibers h).sched :=
+      fun h => Nat.le_trans (m1 h).1 (m2 h).1
+    -- quiet part
+    have hnof : ∀ p ∈ w.ent c, p.fiber = f → p.sched ≠ (w.fibers f).sched :=
+      fun p hp e hs => hq.2.2 ⟨c, p, hp, e, hs⟩
+    obtain ⟨q1a, q1b⟩ := closeWake_fold_quiet hcc c true f (w.fibers f).sched (w.chans c).writePending w0
+      (fun p hp => hnof p ((mem_ent w c p).mpr (Or.inr hp))) rfl
+    obtain ⟨q2a, q2b⟩ := closeWake_fold_quiet hcc c false f (w.fibers f).sched (w.chans c).readPending w1
+      (fun p hp => hnof p ((mem_ent w c p).mpr (Or.inl hp))) (by rw [q1a]; rfl)
+    have hff : wf.fibers f = w.fibers f := q2a.trans q1a
+    have hLf : LT wf.fibers wf.runq f = LT w.fibers w.runq f := q2b.trans q1b
+    rw [hwf]
+    refine ⟨?_, by rw [k2, k1]; exact hcur, ?_⟩
+    · unfold WM
+      rw [show wf.timers = w.timers from t2.trans t1]
+      apply M_shrink hMf
+      · intro c' p hp
+        by_cases e : c' = c
+        · subst e; rw [hentc] at hp; simp at hp
+        · rw [hento c' e] at hp; exact hp
+      · intro c' p hp hnp
+        by_cases e : c' = c
+        · subst e
+          have hb := hm.a1 c' p hp
+          by_cases hl : p.sched = (w.fibers p.fiber).sched
+          · have hle : liveEntry w.fibers w.ent p.fiber := ⟨c', p, hp, rfl, hl⟩
+            have hgf : p.fiber ≠ f := fun e => hq.2.2 (e ▸ hle)
+            have hpend : (w.fibers p.fiber).status = .pending := by
+              cases hst : (w.fibers p.fiber).status with
+              | pending => rfl
+              | _ =>
+                exfalso
+                refine (hm.d2 p.fiber (by rw [hst]; intro c; cases c) ?_).2 hle
+                rw [hcur]; intro c; exact hgf (Option.some.inj c).symm
+            have hres : fiberCanResume (w.fibers p.fiber) = true := by unfold fiberCanResume; rw [hpend]
+            have hcan := not_canceled_of_liveEntry hm p.fiber (Or.inl hle)
+            have hw := (chanClose_wakes_all cfg w c' hopen p
+              (by rcases (mem_ent w c' p).mp hp with h | h; exact Or.inr h; exact Or.inl h) hl hres hcan).2.2.2
+            rw [hwf] at hw
+            omega
+          · have := hmono p.fiber; omega
+        · rw [hento c' e] at hnp; exact absurd hp hnp
+    · refine ⟨by rw [hLf]; exact hq.1, ?_, ?_⟩
+      · rw [show wf.timers = w.timers from t2.trans t1, liveTimer_congr _ f (by rw [hff])]; exact hq.2.1
+      · rintro ⟨c', p, hp, h1, h2⟩
+        rw [hff] at h2
+        by_cases e : c' = c
+        · subst e; rw [hentc] at hp; simp at hp
+        · rw [hento c' e] at hp; exact hq.2.2 ⟨c', p, hp, h1, h2⟩
+
 end JanetModel.Ev
